@@ -1,6 +1,132 @@
-"""Optional vehicles: foreign-architecture executions of the real code under Miri (placeholder until built)."""
-from .common import ToolError
+"""Optional vehicles: executions of the real code for foreign architectures under Miri
+(aarch64: the real NEON Vector/mask code and arch/aarch64; s390x: big-endian; i686: 32-bit words).
+Miri is used purely as an interpreter; verdicts still compare with the TLC vectors' expected values.
+Any infrastructure problem (toolchain, sysroot, build, timeout, unsupported operation) skips the vehicle."""
+import json
+import os
+import random
+import subprocess
+import time
+
+from . import common as C
+from .common import ToolError, log
+
+TARGETS = {
+    "neon": "aarch64-unknown-linux-gnu",
+    "be64": "s390x-unknown-linux-gnu",
+    "le32": "i686-unknown-linux-gnu",
+}
+RUSTFLAGS = "--cfg memchr_verif --check-cfg cfg(memchr_verif) --check-cfg cfg(verif_wasm) --check-cfg cfg(verif_x86)"
 
 
-def run(ctx, vecs, classes, executed):
-    raise ToolError("Miri vehicles not built yet")
+def sysroot(name, build=True, timeout=300):
+    d = os.path.join(C.WORK, "miri", "sysroot-" + name)
+    if os.path.isdir(os.path.join(d, "lib")):
+        return d
+    if not build:
+        raise ToolError("no Miri sysroot for %s" % name)
+    env = dict(os.environ, MIRI_SYSROOT=d, CARGO_NET_OFFLINE="true")
+    os.makedirs(os.path.dirname(d), exist_ok=True)
+    p = subprocess.run(["timeout", str(timeout), "cargo", "+nightly", "miri", "setup", "--target", TARGETS[name]], cwd=C.HARNESS, env=env,
+                       stdout=subprocess.PIPE, stderr=subprocess.STDOUT, text=True)
+    if p.returncode != 0:
+        raise ToolError("miri setup for %s failed: %s" % (name, p.stdout[-400:]))
+    return d
+
+
+def to_lines(vec_paths, n_bytes, n_sub, seed):
+    """Deterministic sample of vectors in the lean text format of harness/src/miri_sample.rs."""
+    rnd = random.Random(seed)
+    gl, ml = [], []
+    for vp in vec_paths:
+        with open(vp) as f:
+            for line in f:
+                if '"m":"mm"' in line:
+                    ml.append(line)
+                elif '"m":"generic"' in line or '"m":"swar"' in line:
+                    gl.append(line)
+    rnd.shuffle(gl)
+    rnd.shuffle(ml)
+    out = []
+    cs = lambda xs: ",".join(str(x) for x in xs) if xs else "-"
+    for line in gl[:n_bytes]:
+        v = json.loads(line)
+        if v["fill"] == 0:
+            ms = sorted(v["pts"])
+        else:
+            ms = [i for i in range(v["len"]) if i not in v["pts"]]
+        out.append("G %s %d %d %d %s" % (v["op"], v["nn"], v["len"], v["res"], cs(ms)))
+    for line in ml[:n_sub]:
+        v = json.loads(line)
+        out.append("M %d %d %s %s %s %s" % (v["find"], v["rfind"], cs(v["n"]), cs(v["h"]), cs(v["fwd"]), cs(v["rev"])))
+    return out
+
+
+def run_target(ctx, name, lines, classes, par=6, timeout=420):
+    sr = sysroot(name)
+    env = dict(os.environ, MIRI_SYSROOT=sr, CARGO_TARGET_DIR=os.path.join(C.WORK, "target-miri"), RUSTFLAGS=RUSTFLAGS,
+               MIRIFLAGS="-Zmiri-disable-isolation", CARGO_NET_OFFLINE="true")
+    d = os.path.join(ctx.dir, "miri_" + name)
+    os.makedirs(d, exist_ok=True)
+    # build once (first chunk run compiles; do a tiny run first so that the parallel runs do not race on the target dir)
+    warm = os.path.join(d, "warm.txt")
+    open(warm, "w").write("G find 1 4 1 1\n")
+    base = ["cargo", "+nightly", "miri", "run", "--offline", "--quiet", "--target", TARGETS[name], "--", "miri-sample", "--seed", str(ctx.seed)]
+    p = subprocess.run(["timeout", str(timeout)] + base + ["--in", warm], cwd=C.HARNESS, env=env, stdout=subprocess.PIPE, stderr=subprocess.PIPE, text=True)
+    if p.returncode != 0 or "MIRI-SAMPLE" not in p.stdout:
+        raise ToolError("miri build/run for %s failed (rc=%s): %s" % (name, p.returncode, (p.stderr or p.stdout)[-300:]))
+    chunks = [lines[i::par] for i in range(par)]
+    procs = []
+    for i, ch in enumerate(chunks):
+        if not ch:
+            continue
+        fp = os.path.join(d, "chunk%d.txt" % i)
+        open(fp, "w").write("\n".join(ch) + "\n")
+        procs.append((subprocess.Popen(["timeout", str(timeout)] + base + ["--in", fp], cwd=C.HARNESS, env=env, stdout=subprocess.PIPE, stderr=subprocess.PIPE, text=True), fp))
+    execs = 0
+    done_chunks = 0
+    for pr, fp in procs:
+        out, err = pr.communicate()
+        if pr.returncode == 124:
+            ctx.vehicles_skipped.append({"vehicle": name, "reason": "chunk timeout (%s)" % os.path.basename(fp)})
+            continue
+        if pr.returncode != 0:
+            if "Undefined Behavior" in err and ("out-of-bounds" in err or "alignment" in err or "dangling" in err):
+                msg = [l for l in err.splitlines() if "Undefined Behavior" in l][:1]
+                if "oob" in classes or "misaligned" in classes:
+                    ctx.violation("miri:%s:%s" % (name, msg), "Miri (%s) detected a memory-access error in the code under test: %s" % (name, msg), {"chunk": open(fp).read()[:2000]})
+                else:
+                    ctx.note("Miri (%s) memory-access error (decided by C05): %s" % (name, msg))
+            else:
+                ctx.vehicles_skipped.append({"vehicle": name, "reason": "miri exited %s: %s" % (pr.returncode, err[-200:])})
+            continue
+        done_chunks += 1
+        for l in out.splitlines():
+            if l.startswith("FINDING\t"):
+                _, cls, what, src = l.split("\t", 3)
+                if cls in classes:
+                    ctx.violation("miri:%s:%s:%s" % (name, cls, what), "[%s under Miri] %s" % (name, what), {"vector_line": src, "target": TARGETS[name]})
+                else:
+                    ctx.note("[%s under Miri] %s finding decided by another property: %s" % (name, cls, what))
+            elif l.startswith("MIRI-SAMPLE"):
+                execs += int(l.split("execs=")[1].split("\t")[0])
+    ctx.add_counters({"miri_exec": execs}, prefix=name + ".")
+    return execs, done_chunks
+
+
+def run(ctx, vecs, classes, executed, targets=None, n_bytes=None, n_sub=None):
+    q = ctx.quick
+    targets = targets or (["neon"] if q else ["neon", "be64", "le32"])
+    nb = n_bytes if n_bytes is not None else (48 if q else 1500)
+    ns = n_sub if n_sub is not None else (16 if q else 600)
+    lines = to_lines(vecs, nb, ns, ctx.seed)
+    for name in targets:
+        t0 = time.time()
+        try:
+            execs, chunks = run_target(ctx, name, lines, classes, par=8 if q else 12, timeout=300 if q else 1500)
+            if chunks:
+                executed.append("%s (Miri, %d calls)" % (name, execs))
+            log("[miri] %s: %d calls in %.1fs" % (name, execs, time.time() - t0))
+        except ToolError as e:
+            ctx.vehicles_skipped.append({"vehicle": name, "reason": str(e)[:300]})
+            log("[miri] %s skipped: %s" % (name, str(e)[:200]))
